@@ -24,6 +24,7 @@ public:
     static status assign_thread_info(Token& token) {
         for (auto&& elem : thread_info_table_) {
             if (elem.gain_the_right()) {
+                YK_VP(k_epoch_load, &elem, 0, 0);
                 elem.set_begin_epoch(epoch_management::get_epoch());
                 token = &(elem);
                 return status::OK;
